@@ -200,6 +200,112 @@ func runC20(c *Ctx) {
 		}
 	}
 
+	// forwarding version negotiation: every return is one of the four version constants, and each
+	// non-default constant is tied to the guards Velocity's negotiation uses (frozen table):
+	//   4 (lazy session)  ⇐ protocol >= 1.19.3 and requested >= 4
+	//   2 (with key)      ⇐ protocol <  1.19.3 and key revision == GenericV1
+	//   3 (with key v2)   ⇐ protocol <  1.19.3 and key revision == LinkedV2 and requested >= 3
+	//   1 (default)       otherwise; nothing above 1 unless requested > 1
+	if fv := c.MustFunc(pkgVelocity + ":findForwardingVersion"); fv != nil {
+		req := fv.Params[0]
+		// requested after clipping: min(requested, max)
+		isReq := func(v ssa.Value) bool {
+			v = strip(v)
+			if v == ssa.Value(req) {
+				return true
+			}
+			if cl, ok := v.(*ssa.Call); ok {
+				if b, isB := cl.Call.Value.(*ssa.Builtin); isB && b.Name() == "min" {
+					for _, a := range cl.Call.Args {
+						if strip(a) == ssa.Value(req) {
+							return true
+						}
+					}
+				}
+			}
+			return false
+		}
+		protoGE := func(want bool) EdgePred {
+			return func(e Edge, cond ssa.Value, truth bool) bool {
+				cl := callValue(cond)
+				if cl == nil || methodName(&cl.Call) != "GreaterEqual" || len(cl.Call.Args) != 2 {
+					return false
+				}
+				ld, ok := cl.Call.Args[1].(*ssa.UnOp)
+				if !ok {
+					return false
+				}
+				g, ok := ld.X.(*ssa.Global)
+				return ok && g.Name() == "Minecraft_1_19_3" && truth == want
+			}
+		}
+		revIs := func(name string) EdgePred {
+			return func(e Edge, cond ssa.Value, truth bool) bool {
+				bo, ok := cond.(*ssa.BinOp)
+				if !ok || bo.Op != token.EQL || !truth {
+					return false
+				}
+				for _, side := range []ssa.Value{bo.X, bo.Y} {
+					if ld, ok := strip(side).(*ssa.UnOp); ok {
+						if g, ok := ld.X.(*ssa.Global); ok && g.Name() == name {
+							return true
+						}
+					}
+				}
+				return false
+			}
+		}
+		nRet := 0
+		for _, r := range returnsOf(fv) {
+			if len(r.Results) != 1 {
+				continue
+			}
+			nRet++
+			k, isK := constInt(r.Results[0])
+			if !isK {
+				c.Check("forwarding-version", "constant-return@findForwardingVersion", r, false,
+					"the negotiated forwarding version is computed ("+r.Results[0].String()+") instead of being one of the version constants under Velocity's guards (e.g. a LinkedV2 key with requested=2 must fall back to 1, the V2 key is not backwards compatible)")
+				continue
+			}
+			dom := func(p EdgePred) bool { g, n := MustCross(r, p); return g && n > 0 }
+			rr := RangeAt(r.Block(), isReq)
+			ok := true
+			why := ""
+			switch k {
+			case 1:
+			case 4:
+				ok = dom(protoGE(true)) && rr.HasLo() && rr.Lo >= 4
+				why = "version 4 requires protocol >= 1.19.3 and requested >= 4"
+			case 2:
+				ok = dom(protoGE(false)) && dom(revIs("GenericV1")) && rr.HasLo() && rr.Lo >= 2
+				why = "version 2 requires protocol < 1.19.3, a GenericV1 key and requested > 1"
+			case 3:
+				ok = dom(protoGE(false)) && dom(revIs("LinkedV2")) && rr.HasLo() && rr.Lo >= 3
+				why = "version 3 requires protocol < 1.19.3, a LinkedV2 key and requested >= 3"
+			default:
+				ok, why = false, "unknown forwarding version constant"
+			}
+			c.Check("forwarding-version", fmt.Sprintf("return-%d@findForwardingVersion", k), r, ok, why+fmt.Sprintf(" (requested range here: %s)", rr))
+		}
+		if nRet < 5 {
+			c.Undecided("forwarding-version", "findForwardingVersion", fmt.Sprintf("expected ≥5 returns, found %d", nRet))
+		}
+		// the request is clipped to the maximum version
+		clipped := false
+		eachInstr(fv, func(in ssa.Instruction) {
+			if cl, ok := in.(*ssa.Call); ok {
+				if b, isB := cl.Call.Value.(*ssa.Builtin); isB && b.Name() == "min" {
+					for _, a := range cl.Call.Args {
+						if k, isK := constInt(a); isK && k == 4 {
+							clipped = true
+						}
+					}
+				}
+			}
+		})
+		c.CheckAt("forwarding-version", "requested-clipped-to-4@findForwardingVersion", c.P.Pos(fv.Pos()), clipped, "requested version must be clipped to the maximum forwarding version (4)")
+	}
+
 	// proxy side
 	if hl := c.MustFunc(pkgProxy + ":(*backendLoginSessionHandler).handleLoginPluginMessage"); hl != nil {
 		isCreate := callSuffix("velocity.CreateForwardingData")
